@@ -108,6 +108,22 @@ def oracle(c, line):
         n, m = int(chk.split(":")[1]), int(trunc.split(":")[1])
         if n != m:
             return "check accepted %d bytes but parsing those bytes succeeded with length %d" % (n, m)
+    # whatever the generator intended: a top-level integer or bulk string that is ACCEPTED must have a number where a number
+    # belongs, and exactly the value written
+    b = c["bytes"]
+    if par.startswith("ok:") and b[:1] in (b":", b"$") and b"\r" in b:
+        import re
+        t = b[1:b.index(b"\r")]          # the line reader ends a line at the first CR (and skips the byte after it)
+        if not re.fullmatch(rb"[+-]?[0-9]+", t):
+            return "a line that is not a decimal number (%r) was accepted in a number position: %s" % (t[:40], par[:80])
+        if b[:1] == b":":
+            got = par.split(":", 2)[2]
+            if got != "I%d" % int(t):
+                return "number mis-read: written %d, parsed %s" % (int(t), got[:60])
+        elif int(t) >= 0:
+            want_len = 1 + len(t) + 2 + int(t) + 2
+            if int(par.split(":")[1]) != want_len:
+                return "bulk string of announced length %d accepted with %d bytes in total (expected %d)" % (int(t), int(par.split(":")[1]), want_len)
     e = c["expect"]
     if e is None:
         return None
